@@ -1,30 +1,46 @@
 ------------------------------- MODULE Worker -------------------------------
 (***************************************************************************)
-(* _WorkflowCoordinator.__align (src/workflow_coordinator.py) for one task *)
-(* on abstract correlation results: primary correlations per (reference,   *)
-(* strand), selection of the best peaks, refinement, one candidate per     *)
-(* selected peak, choice of the best candidate; every partial operation an *)
-(* explicit Abort.  Properties: C07 (never aborts) and the candidate part  *)
-(* of C05 (the result is a maximal candidate, at most peaksCount of them). *)
-(*                                                                         *)
-(* env = [tooLong : set of references longer queries cannot be placed on,  *)
-(*        peaks : [ref x strand -> Seq(score)]  primary peaks,              *)
-(*        conf : candidate confidence per selected peak (chosen by the      *)
-(*               environment: the numerical part is not modelled),          *)
-(*        hasPairs : whether that candidate has any aligned pair]           *)
+(* _WorkflowCoordinator.__align (src/workflow_coordinator.py) for one task,*)
+(* one action per message the coordinator dispatches (these are the points *)
+(* at which an Extension - the diagnostics plotters, the harness recorder - *)
+(* observes it):                                                           *)
+(*   Correlate      InitialAlignmentMessage, two per reference in the      *)
+(*                  order of the reference list: '+' then '-'              *)
+(*   Select         PeaksSelector.selectPeaks (no message)                 *)
+(*   Refine         CorrelationResultMessage(index), one per selected peak *)
+(*   Abort_EmptySelection / NoCandidates   the unpacking of an empty list  *)
+(*   Row            AlignmentResultRowMessage(index), one per refinement   *)
+(*   Multi          MultipleAlignmentResultRowsMessage (all rows of the    *)
+(*                  task, in order)                                        *)
+(*   PickBest       __getBestAlignment + the coordinator's filter          *)
+(* The numerical content (which peaks, which confidences) is chosen by the *)
+(* environment here; Seeding.tla and AlignCore.tla model where it comes    *)
+(* from.  Properties: C07 (never aborts), the candidate part of C05 (the   *)
+(* result is a maximal candidate, at most peaksCount of them) and the seed *)
+(* part of C16 (the refined peaks are the peaksCount highest, descending). *)
 (***************************************************************************)
 EXTENDS Integers, Sequences, FiniteSets, TLC
 
-CONSTANTS Refs, PeaksCount, Scores, Confs,
+CONSTANTS Scores, Confs,
           EmptySelectionAborts     \* TRUE = pinned commit: zip(*[]) raises ValueError when no peak was selected (D2)
 
-VARIABLES prim,      \* Seq of [ref, rev, score] : all primary peaks in the order the code enumerates them
+VARIABLES par,       \* the task's parameters, fixed: [refs |-> reference ids in the order of the list, pcount |-> peaksCount]
+          ci,        \* primary correlations dispatched so far (0 .. 2 * Len(RefSeq))
+          prim,      \* Seq of [ref, rev, score, pos] : all primary peaks in the order the code enumerates them
           selected,  \* Seq of indices into prim
+          ri,        \* refinements dispatched so far
           cands,     \* Seq of [peak, conf, hasPairs]
+          multi,     \* the MultipleAlignmentResultRowsMessage has been dispatched
           best,      \* 0 = None, else index into cands
           result,    \* "none" | "row" | "-"
           pc
-wvars == <<prim, selected, cands, best, result, pc>>
+wvars == <<par, ci, prim, selected, ri, cands, multi, best, result, pc>>
+
+RefSeq == par.refs
+PeaksCount == par.pcount
+
+WInit == /\ ci = 0 /\ prim = <<>> /\ selected = <<>> /\ ri = 0 /\ cands = <<>> /\ multi = FALSE /\ best = 0
+         /\ result = "-" /\ pc = "correlate"
 
 \* stable top-N by score (sorted(..., reverse=True)[0:count])
 TopN(ps, n) ==
@@ -33,28 +49,44 @@ TopN(ps, n) ==
         c == IF n < m THEN n ELSE m
     IN [p \in 1..c |-> CHOOSE i \in 1..m : rank(i) = p]
 
-Select == /\ pc = "select" /\ selected' = TopN(prim, PeaksCount) /\ pc' = "candidates"
-          /\ UNCHANGED <<prim, cands, best, result>>
+NextRef == RefSeq[ci \div 2 + 1]
+NextRev == ci % 2 = 1
+\* getInitialAlignment on (NextRef, NextRev) found the peaks ps (a sequence of [score, pos]); correlations without a
+\* peak are dispatched as well but contribute nothing (`if any(peaks): yield`)
+Correlate(ps) ==
+    /\ pc = "correlate" /\ ci < 2 * Len(RefSeq)
+    /\ prim' = prim \o [j \in 1..Len(ps) |-> [ref |-> NextRef, rev |-> NextRev, score |-> ps[j].score, pos |-> ps[j].pos]]
+    /\ ci' = ci + 1 /\ UNCHANGED <<par, selected, ri, cands, multi, best, result, pc>>
+Select == /\ pc = "correlate" /\ ci = 2 * Len(RefSeq)
+          /\ selected' = TopN(prim, PeaksCount) /\ pc' = "refine"
+          /\ UNCHANGED <<par, ci, prim, ri, cands, multi, best, result>>
+Refine == /\ pc = "refine" /\ ri < Len(selected) /\ ri' = ri + 1
+          /\ UNCHANGED <<par, ci, prim, selected, cands, multi, best, result, pc>>
+RefineDone == /\ pc = "refine" /\ ri = Len(selected) /\ pc' = "candidates"
+              /\ UNCHANGED <<par, ci, prim, selected, ri, cands, multi, best, result>>
 \* zip(*[ ... for each selected peak]) : with no selected peak the unpacking fails
 Abort_EmptySelection ==
     /\ pc = "candidates" /\ selected = <<>> /\ EmptySelectionAborts
-    /\ pc' = "aborted" /\ UNCHANGED <<prim, selected, cands, best, result>>
+    /\ pc' = "aborted" /\ UNCHANGED <<par, ci, prim, selected, ri, cands, multi, best, result>>
 NoCandidates ==
     /\ pc = "candidates" /\ selected = <<>> /\ ~EmptySelectionAborts
-    /\ result' = "none" /\ pc' = "done" /\ UNCHANGED <<prim, selected, cands, best>>
-Candidates ==
-    /\ pc = "candidates" /\ selected # <<>>
-    /\ \E cf \in [1..Len(selected) -> Confs], hp \in [1..Len(selected) -> BOOLEAN] :
-          cands' = [i \in 1..Len(selected) |-> [peak |-> selected[i], conf |-> cf[i], hasPairs |-> hp[i]]]
-    /\ pc' = "pick" /\ UNCHANGED <<prim, selected, best, result>>
+    /\ result' = "none" /\ pc' = "done" /\ UNCHANGED <<par, ci, prim, selected, ri, cands, multi, best>>
+Row(cf, hp) ==
+    /\ pc = "candidates" /\ selected # <<>> /\ Len(cands) < Len(selected)
+    /\ cands' = Append(cands, [peak |-> selected[Len(cands) + 1], conf |-> cf, hasPairs |-> hp])
+    /\ UNCHANGED <<par, ci, prim, selected, ri, multi, best, result, pc>>
+Multi == /\ pc = "candidates" /\ selected # <<>> /\ Len(cands) = Len(selected)
+         /\ multi' = TRUE /\ pc' = "pick" /\ UNCHANGED <<par, ci, prim, selected, ri, cands, best, result>>
 \* first maximum of confidence; the coordinator drops rows without pairs
 PickBest ==
     /\ pc = "pick"
     /\ LET b == CHOOSE i \in 1..Len(cands) : /\ \A j \in 1..Len(cands) : cands[j].conf <= cands[i].conf
                                              /\ \A j \in 1..(i-1) : cands[j].conf < cands[i].conf
        IN best' = b /\ result' = IF cands[b].hasPairs THEN "row" ELSE "none"
-    /\ pc' = "done" /\ UNCHANGED <<prim, selected, cands>>
-WorkerNext == Select \/ Abort_EmptySelection \/ NoCandidates \/ Candidates \/ PickBest
+    /\ pc' = "done" /\ UNCHANGED <<par, ci, prim, selected, ri, cands, multi>>
+WorkerNext == (\E n \in 0..2 : \E ps \in [1..n -> [score : Scores, pos : {0}]] : Correlate(ps))
+              \/ Select \/ Refine \/ RefineDone \/ Abort_EmptySelection \/ NoCandidates
+              \/ (\E cf \in Confs, hp \in BOOLEAN : Row(cf, hp)) \/ Multi \/ PickBest
 
 Inv_C07 == pc # "aborted"
 Inv_C05 == pc = "done" /\ result = "row" =>
@@ -62,4 +94,14 @@ Inv_C05 == pc = "done" /\ result = "row" =>
               /\ \A j \in 1..Len(cands) : cands[j].conf <= cands[best].conf
               /\ \A i \in 1..Len(selected) : \A j \in 1..Len(prim) :
                     (\A a \in 1..Len(selected) : selected[a] # j) => prim[j].score <= prim[selected[i]].score
+\* C16, last sentence: the seeds that are refined are the peaksCount highest-scoring primary peaks, in descending order
+SeedsAreTheHighest(pr, sel, n) ==
+    /\ Len(sel) = (IF n < Len(pr) THEN n ELSE Len(pr))
+    /\ \A a, b \in 1..Len(sel) : a < b => sel[a] # sel[b] /\ pr[sel[a]].score >= pr[sel[b]].score
+    /\ \A a \in 1..Len(sel) : \A j \in 1..Len(pr) : (\A b \in 1..Len(sel) : sel[b] # j) => pr[j].score <= pr[sel[a]].score
+Inv_C16 == pc \in {"refine", "candidates", "pick", "done"} => SeedsAreTheHighest(prim, selected, PeaksCount)
+\* the protocol: what has been dispatched so far is consistent with the stage
+Inv_Protocol == /\ ri <= Len(selected) /\ Len(cands) <= ri
+                /\ (multi => Len(cands) = Len(selected) /\ selected # <<>>)
+                /\ (pc = "done" /\ selected # <<>> => multi /\ ri = Len(selected) /\ ci = 2 * Len(RefSeq))
 =============================================================================
